@@ -478,7 +478,14 @@ func (w *world) corruptInFlight() bool {
 	tm := &treechangeproto.TreeSyncMessage{}
 	must(tm.UnmarshalVT(osm.Payload))
 	hu := tm.GetContent().GetHeadUpdate()
-	i := s.Choose("corrupt-change", len(hu.Changes))
+	// the order of concurrent changes inside one head update is not fixed by the code under test (three sibling
+	// heads were seen in three orders for one seed): the change is picked by rank of its id, not by position
+	rank := make([]int, len(hu.Changes))
+	for k := range rank {
+		rank[k] = k
+	}
+	sort.Slice(rank, func(a, b int) bool { return hu.Changes[rank[a]].Id < hu.Changes[rank[b]].Id })
+	i := rank[s.Choose("corrupt-change", len(hu.Changes))]
 	old := hu.Changes[i]
 	nw, what := w.mutateChange(old)
 	w.consider(nw)
